@@ -1764,6 +1764,14 @@ class H2Connection:
             self._closed_streams[promised_stream_id] = (
                 StreamClosedBy.SEND_RST_STREAM
             )
+        else:
+            # This is not a stream the remote peer can promise: the ID is one
+            # of ours, or it is not above the ones the peer has used already
+            # (RFC 7540 Section 5.1.1). There is nothing to refuse, and a
+            # RST_STREAM for that ID could hit a stream that is in use.
+            raise StreamIDTooLowError(
+                promised_stream_id, self.highest_inbound_stream_id
+            )
 
         f = RstStreamFrame(promised_stream_id)
         f.error_code = ErrorCodes.REFUSED_STREAM
